@@ -95,6 +95,9 @@ type config struct {
 	CustomAccept []string
 	// ExtraProto: a second Sec-WebSocket-Protocol line written by the dialer's Header writer.
 	ExtraProto []string
+	// HTTPServer: the server side is ws.HTTPUpgrader (request parsed by net/http, response written to the
+	// hijacked connection) instead of ws.Upgrader. No ProtocolCustom, no buffer sizes there.
+	HTTPServer bool
 	Offers     []offer
 	ExtMode    string   // none | selector | wsflate | custom | custom-error
 	ExtAccept  []string // names the selector/custom negotiator accepts
@@ -162,7 +165,8 @@ func drawConfig(t *rapid.T) config {
 	c.Protocols = rapid.SliceOfNDistinct(rapid.SampledFrom(tokenPool), 0, 4, rapid.ID[string]).Draw(t, "protocols")
 	c.Accept = rapid.SliceOfNDistinct(rapid.SampledFrom(tokenPool), 0, 4, rapid.ID[string]).Draw(t, "accept")
 	c.NoProtoSel = rapid.IntRange(0, 4).Draw(t, "noprotosel") == 0
-	if rapid.IntRange(0, 3).Draw(t, "protocustom") == 0 {
+	c.HTTPServer = rapid.IntRange(0, 3).Draw(t, "httpserver") == 0
+	if !c.HTTPServer && rapid.IntRange(0, 3).Draw(t, "protocustom") == 0 {
 		c.ProtoCustom = true
 		c.CustomAccept = rapid.SliceOfNDistinct(rapid.SampledFrom(tokenPool), 0, 4, rapid.ID[string]).Draw(t, "customaccept")
 	}
@@ -282,6 +286,48 @@ func (c config) upgrader() ws.Upgrader {
 	return u
 }
 
+// httpUpgrader builds the net/http flavoured upgrader for the same configuration.
+func (c config) httpUpgrader() ws.HTTPUpgrader {
+	var u ws.HTTPUpgrader
+	if !c.NoProtoSel {
+		u.Protocol = func(p string) bool { return contains(c.Accept, p) }
+	}
+	if len(c.SrvHeader) > 0 {
+		u.Header = http.Header{}
+		for _, kv := range c.SrvHeader {
+			u.Header[kv[0]] = []string{kv[1]}
+		}
+	}
+	plain := c.upgrader()
+	u.Extension, u.Negotiate = plain.Extension, plain.Negotiate
+	return u
+}
+
+// hijackWriter hands the in-memory connection to HTTPUpgrader.
+type hijackWriter struct {
+	conn net.Conn
+	hdr  http.Header
+}
+
+func (h *hijackWriter) Header() http.Header         { return h.hdr }
+func (h *hijackWriter) Write(p []byte) (int, error) { return len(p), nil }
+func (h *hijackWriter) WriteHeader(int)             {}
+func (h *hijackWriter) Hijack() (net.Conn, *bufio.ReadWriter, error) {
+	return h.conn, bufio.NewReadWriter(bufio.NewReader(h.conn), bufio.NewWriter(h.conn)), nil
+}
+
+type recConn struct {
+	net.Conn
+	rec *tx.Rec
+}
+
+func (c recConn) Write(p []byte) (int, error)      { return c.rec.Write(p) }
+func (c recConn) Read(p []byte) (int, error)       { return 0, io.EOF }
+func (c recConn) SetDeadline(time.Time) error      { return nil }
+func (c recConn) SetWriteDeadline(time.Time) error { return nil }
+func (c recConn) SetReadDeadline(time.Time) error  { return nil }
+func (c recConn) Close() error                     { return nil }
+
 // selection is the subprotocol the documented rules make the server pick: the
 // protocol lines are examined in order until one yields a protocol; within a
 // line the first token the selector (ProtocolCustom if set, else Protocol) accepts.
@@ -346,6 +392,16 @@ func runPairF(c config, reqChunks, respChunks []int, srvFailAt int) pairResult {
 	peer.serve = func(req []byte) []byte {
 		rec := tx.NewRec()
 		rec.FailAt = srvFailAt
+		if c.HTTPServer {
+			hr, err := http.ReadRequest(bufio.NewReader(tx.NewSrc(req, reqChunks)))
+			if err != nil {
+				r.srvErr = fmt.Errorf("harness: net/http refused the dialer's request: %v", err)
+				return nil
+			}
+			_, _, r.srvHS, r.srvErr = c.httpUpgrader().Upgrade(hr, &hijackWriter{conn: recConn{rec: rec}, hdr: http.Header{}})
+			r.srvWriteFailed = rec.Failed
+			return rec.Bytes()
+		}
 		r.srvHS, r.srvErr = c.upgrader().Upgrade(tx.RW{Reader: tx.NewSrc(req, reqChunks), Writer: rec})
 		r.srvWriteFailed = rec.Failed
 		return rec.Bytes()
@@ -379,6 +435,10 @@ func TestPeersAgree(t *testing.T) {
 		if r.srvWriteFailed {
 			hx.Class("pair/server-write-fault")
 		}
+		if r.srvErr != nil && strings.HasPrefix(r.srvErr.Error(), "harness:") {
+			t.Fatalf("%v\nrequest:\n%s", r.srvErr, r.req)
+		}
+		hx.Class(fmt.Sprintf("pair/httpserver=%v", c.HTTPServer))
 		small := c.SRB > 0 && c.SRB < 300 || c.CRB > 0 && c.CRB < 300 || gen.SmallChunk(reqChunks) || gen.SmallChunk(respChunks)
 		offered := len(c.Protocols) > 0 || len(c.Offers) > 0
 		hx.Class(fmt.Sprintf("pair/ok=%v/ext=%s/offered=%v", r.cliErr == nil && r.srvErr == nil, c.ExtMode, offered))
